@@ -72,10 +72,7 @@ def engine_recipes():
     last = R.clone(mamdani)  # Last walks the rules backwards: the block's own rule order must not change
     last["name"] = "last"
     last["blocks"][0]["activation"] = ["Last", 1, 0.0]
-    highest = R.clone(mamdani)
-    highest["name"] = "highest"
-    highest["blocks"][0]["activation"] = ["Highest", 1]
-    return [mamdani, larsen, sugeno, tsukamoto, hybrid, locked, first, last, highest]
+    return [mamdani, larsen, sugeno, tsukamoto, hybrid, locked, first, last]
 
 
 # ----------------------------------------------------------------------------------------------------------------------
@@ -195,7 +192,8 @@ def check_copy(acc: Acc, case, original, copy) -> bool:
 
 
 # ----------------------------------------------------------------------------------------------------------------------
-EDITS = ["edit-term", "edit-weight", "edit-operator", "edit-add-term", "edit-flip-output", "edit-flip-rule"]
+EDITS = ["edit-term", "edit-weight", "edit-operator", "edit-add-term", "edit-flip-output", "edit-flip-rule", "edit-flip-input"]
+FLIPS = ("edit-flip-output", "edit-flip-rule", "edit-flip-input")
 TOGGLES = ["toggle-rule", "toggle-input", "toggle-block", "toggle-output"]
 OPS = ["in-r0", "in-r1", "in-rn", "in-batch", "process", "restart", "copy"] + EDITS + TOGGLES
 
@@ -216,16 +214,26 @@ def apply_edit(engine, edit: str) -> None:
     elif edit == "edit-flip-rule":
         r = engine.rule_blocks[0].rules[-1]
         r.enabled = not r.enabled
+    elif edit == "edit-flip-input":
+        iv = engine.input_variables[0]
+        iv.enabled = not iv.enabled
 
 
-def set_row(engine, name: str) -> None:
+def set_row(engine, name: str):
+    """Give the inputs; returns the values every input variable holds afterwards (whatever its flags are).
+    in-batch and in-r1 go through the Engine.input_values setter (a matrix), the others through the variables."""
     if name == "in-batch":
-        for k, iv in enumerate(engine.input_variables):
-            iv.value = np.array([r[k] for r in BATCH])
-    else:
-        row = ROWS[name[3:]]
-        for iv, x in zip(engine.input_variables, row):
-            iv.value = x
+        m = np.array(BATCH)
+        engine.input_values = m
+        return [m[:, k] for k in range(len(engine.input_variables))]
+    row = ROWS[name[3:]]
+    if name == "in-r1":
+        m = np.array([list(row)])
+        engine.input_values = m
+        return [m[:, k] for k in range(len(engine.input_variables))]
+    for iv, x in zip(engine.input_variables, row):
+        iv.value = x
+    return list(row)
 
 
 class World:
@@ -237,6 +245,7 @@ class World:
         self.cur_edits: list[str] = []
         self.kept = None
         self.kept_edits: list[str] = []
+        self.intended = None  # the input values given last (None: none since construction / restart)
 
     def fresh(self, edits):
         e = R.build(self.recipe)
@@ -261,8 +270,9 @@ def process_checked(acc: Acc, case, w: World, check: bool) -> bool:
     if not check or (w.recipe["name"] == "locked" and raised is None):
         return True
     f = w.fresh(w.cur_edits)
-    for a, b in zip(f.input_variables, e.input_variables):
-        a.value = b.value
+    if w.intended is not None:  # the fresh engine is given the values the history GAVE last, not what the engine in use holds
+        for a, x in zip(f.input_variables, w.intended):
+            a.value = x
     # mirror enabled flags (toggle in progress)
     for a, b in zip(f.variables, e.variables):
         a.enabled = b.enabled
@@ -308,11 +318,12 @@ def apply_op(acc: Acc, case, w: World, op: str, check: bool = True) -> bool:
     ok = True
     kept_before = snap(w.kept) if (check and w.kept is not None) else None
     if op.startswith("in-"):
-        set_row(w.cur, op)
+        w.intended = set_row(w.cur, op)
     elif op == "process":
         ok = process_checked(acc, case, w, check)
     elif op == "restart":
         w.cur.restart()
+        w.intended = None
         acc.transitions += 1
         if check:
             f = w.fresh(w.cur_edits)
@@ -329,7 +340,7 @@ def apply_op(acc: Acc, case, w: World, op: str, check: bool = True) -> bool:
             ok = check_copy(acc, case, w.cur, c)
         w.kept, w.kept_edits = w.cur, list(w.cur_edits)
         w.cur = c
-    elif op in ("edit-flip-output", "edit-flip-rule"):
+    elif op in FLIPS:
         apply_edit(w.cur, op)
         if op in w.cur_edits:
             w.cur_edits.remove(op)
@@ -422,7 +433,7 @@ def summarize(tier: str, seed: int, merged: dict) -> dict:
     return {
         "rule": (
             f"{len(engine_recipes())} engines (Mamdani, Larsen with chained blocks, Takagi-Sugeno with Linear and a Function reading an input and an "
-            f"earlier output, Tsukamoto, hybrid, lock-previous, First-, Last- and Highest-activated) x all histories of length <= {depth} over {len(OPS)} operations "
+            f"earlier output, Tsukamoto, hybrid, lock-previous, First- and Last-activated) x all histories of length <= {depth} over {len(OPS)} operations "
             f"{OPS}, breadth-first with states merged on the structural digest of all live engines; states = distinct digests, "
             "transitions = operations executed with oracles on, traces = fresh-engine comparisons; non-trivial = process / "
             "restart / copy / toggle executed after at least one earlier operation"
